@@ -2,7 +2,7 @@
 """Behaviour-preserving whole-repository rewrites, to look for false alarms.
 
 usage: tools/benign_stress.py <transform> [Cxx ...]
-  transforms: unparse | pass | flip_if | aug | swap_cmp | demorgan | rename | strip_ann | interleave | logcalls | all
+  transforms: return_temp | unparse | pass | flip_if | aug | swap_cmp | demorgan | rename | strip_ann | interleave | logcalls | all
 
 A scratch copy of /repo (without .git) is rewritten under $TMPDIR, every check is run against it
 (SA_REPO), and any VIOLATION / ANALYSIS-ERROR is printed.  The scratch copy is removed afterwards.
@@ -205,7 +205,32 @@ class LogCalls(Interleave):
         return node
 
 
-TRANSFORMS = {'unparse': None, 'interleave': Interleave, 'logcalls': LogCalls, 'rename': RenameLocals, 'strip_ann': StripAnn, 'pass': Pass, 'flip_if': FlipIf, 'aug': Aug, 'swap_cmp': SwapCmp, 'demorgan': DeMorgan}
+class ReturnTemp(ast.NodeTransformer):
+    """return <expr>  ->  _ret = <expr>; return _ret   (expr not a plain name / constant; not in lambdas)"""
+
+    def _f(self, node):
+        self.generic_visit(node)
+        return node
+    visit_FunctionDef = _f
+    visit_AsyncFunctionDef = _f
+
+    def generic_visit(self, node):
+        super().generic_visit(node)
+        for fld in ('body', 'orelse', 'finalbody'):
+            blk = getattr(node, fld, None)
+            if isinstance(blk, list) and all(isinstance(x, ast.stmt) for x in blk):
+                out = []
+                for st in blk:
+                    if isinstance(st, ast.Return) and st.value is not None and not isinstance(st.value, (ast.Name, ast.Constant)):
+                        out.append(ast.Assign(targets=[ast.Name(id='_ret', ctx=ast.Store())], value=st.value, lineno=st.lineno))
+                        out.append(ast.Return(value=ast.Name(id='_ret', ctx=ast.Load())))
+                    else:
+                        out.append(st)
+                setattr(node, fld, out)
+        return node
+
+
+TRANSFORMS = {'unparse': None, 'interleave': Interleave, 'logcalls': LogCalls, 'rename': RenameLocals, 'strip_ann': StripAnn, 'pass': Pass, 'flip_if': FlipIf, 'aug': Aug, 'swap_cmp': SwapCmp, 'demorgan': DeMorgan, 'return_temp': ReturnTemp}
 
 
 def run(name, props):
